@@ -23,6 +23,7 @@ import PyTough.Proofs.GeoConn
 import PyTough.Proofs.GeoConnDel
 import PyTough.Proofs.GeoColumn
 import PyTough.Proofs.GeoColumnDel
+import PyTough.Proofs.GeoRun
 namespace Props.C10
 open Model.Geo Model.Geo.Geo Py Proofs.Geo
 
@@ -161,13 +162,40 @@ example : (strip2 >>= fun g => g.deleteColumn (nm 'b') >>= fun g =>
 
 -- non-vacuity: on the two-column strip, delete the connection and add it again (in the other direction)
 example : (strip2 >>= fun g => g.deleteConnection (nm 'a', nm 'b')).map
-    (fun g => (g.geoInv0, g.joined 0 1, addConnPreB g 1 0)) = .ok (true, false, true) := by
+    (fun g => (g.geoInv0, g.joined 0 1, g.addConnPreB 1 0)) = .ok (true, false, true) := by
   decide +kernel
 example : (strip2 >>= fun g => g.deleteConnection (nm 'a', nm 'b')).map
     (fun g => (g.addConnection 1 0).geoInv0 && (g.addConnection 1 0).meshValid) = .ok true := by decide +kernel
 
 -- non-vacuity: adding an (orphan) node and deleting it again on the two-column strip
 example : (strip2 >>= fun g => (g.addNode (nm 'z') (5, 5)).deleteNode (nm 'z')).map Geo.geoInv = .ok true := by
+  decide +kernel
+
+/-! ### histories
+
+`Edit` (Model/GeoInv.lean) lists the primitive edits with the arguments a caller gives (objects by name);
+`g.editOK e` says, decidably, that the request is sensible on `g` (a node is deleted only when no column uses it;
+a new column has a new name, nodes of the geometry and a non-degenerate polygon; a new connection joins two
+unconnected columns that share a side); `g.run es` applies a history, checking `editOK` at each step. -/
+
+/-- **After any sequence of primitive edits** — adding and deleting nodes, columns (with the cascade over their
+    connections), connections, layers and wells, translating, recomputing the name lists —, each sensible at the
+    moment it is applied: the by-name lookups and ordered lists agree, each node knows exactly the columns that use
+    it, each column exactly its connections and neighbours, each connection's two nodes are a side of both its
+    columns, and every column is counter-clockwise with positive area. -/
+theorem edit_histories_preserve_structure (es : List Edit) (g g' : Geo) (hrun : g.run es = .ok g')
+    (h : g.geoInv0 = true) : g'.geoInv0 = true := run_geoInv0 es g g' hrun h
+
+/-- …and when the history ends with the two `setup_*` calls, the block and connection name lists are fresh too -/
+theorem edit_history_then_setup_names (es : List Edit) (g g' : Geo)
+    (hrun : g.run (es ++ [Edit.setupNames]) = .ok g') (h : g.geoInv0 = true) :
+    g'.geoInv0 = true ∧ g'.namesFresh = true := run_then_setup_fresh es g g' hrun h
+
+-- non-vacuity: a seven-step history on the two-column strip that is accepted at every step
+example : (strip2 >>= fun g => g.run
+    [.deleteConnection (nm 'a') (nm 'b'), .addNode (nm 'z') (3, 1/2), .addColumn (nm 'c') [nm 'c', nm 'z', nm 'f'] none (some 0) 1,
+     .addConnection (nm 'b') (nm 'a'), .addConnection (nm 'b') (nm 'c'), .translate 1 2 3 false, .deleteColumn (nm 'a'),
+     .setupNames]).map (fun g => (g.geoInv0, g.namesFresh, g.columnlist.length, g.connlist.length)) = .ok (true, true, 2, 1) := by
   decide +kernel
 
 /-! ### translating and rotating preserve the whole invariant -/
